@@ -193,10 +193,15 @@ func main() {
 				return nil
 			}
 			var body []c.Ins
-			if rng.Bool() {
+			switch rng.Intn(3) {
+			case 0:
 				body = append(body, c.IConst(c.I32, uint64(uint32(inb()))), c.ILocalSet(3))
-			} else {
+			case 1:
 				body = append(body, c.ILocalGet(0), c.ILocalSet(3))
+			default:
+				// the base is the direct result of i32.wrap_i64 on the i64 parameter: its register may carry guest-chosen
+				// upper bits, which no addressing mode may ever see
+				body = append(body, c.ILocalGet(1), c.IWrap, c.ILocalSet(3))
 			}
 			for k := 2 + rng.Intn(4); k > 0; k-- {
 				body = append(body, access()...)
@@ -225,16 +230,38 @@ func main() {
 			m.Funcs = append(m.Funcs, f)
 			nf++
 		}
+		{
+			f := &c.FuncSpec{Sig: c.Sig{P: []byte{c.I32, c.I64}, R: []byte{c.I64}}, Locals: []byte{c.I64, c.I32, c.I32}}
+			f.Body = []c.Ins{
+				c.ILocalGet(1), c.IWrap, c.ILocalSet(3),
+				c.ILocalGet(3), c.ILoad(c.I64, 8, false, 8), c.ILocalSet(2), // checked access
+				c.ILocalGet(0), m.IIf(nil, nil, []c.Ins{c.ILocalGet(2), c.IConst(c.I64, 1), c.IBin(c.I64, 0), c.ILocalSet(2)}, []c.Ins{c.INop}), // join
+				c.ILocalGet(3), c.ILoad(c.I64, 4, false, 4), c.ILocalGet(2), c.IBin(c.I64, 9), c.ILocalSet(2), // elided, address re-derived
+				m.IBlock(nil, nil, []c.Ins{c.ILocalGet(0), c.IBrIf(0), c.INop}),
+				c.ILocalGet(3), c.ILocalGet(1), c.IStore(c.I64, 2, 0),
+				c.ICall(2),
+				c.ILocalGet(3), c.ILoad(c.I64, 1, false, 1), c.ILocalGet(2), c.IBin(c.I64, 0),
+			}
+			m.Funcs = append(m.Funcs, f)
+			nf++
+		}
 		bin := m.Encode()
 		var calls [][]uint64
-		calls = append(calls, []uint64{uint64(len(m.Hosts) + nf - 1), 0, 0x1122334455667788})
+		calls = append(calls, []uint64{uint64(len(m.Hosts) + nf - 2), 0, 0x1122334455667788})
+		for _, hi := range []uint64{1, 0x7fffffff, 0xffffffff} {
+			calls = append(calls, []uint64{uint64(len(m.Hosts) + nf - 1), uint64(rng.Intn(2)), hi<<32 | uint64(uint32(inb()))})
+		}
 		for k := 4 + rng.Intn(6); k > 0; k-- {
 			fi := len(m.Hosts) + rng.Intn(nf)
 			bs := uint64(uint32(rng.Pick(bases)))
 			if rng.Intn(3) > 0 {
 				bs = uint64(uint32(inb())) &^ 0 
 			}
-			calls = append(calls, []uint64{uint64(fi), bs, rng.Pick([]uint64{0, 1, 0x0102030405060708, rng.U64()})})
+			v := rng.Pick([]uint64{0, 1, 0x0102030405060708, rng.U64()})
+			if rng.Bool() {
+				v = rng.U64()<<32 | uint64(uint32(inb()))
+			}
+			calls = append(calls, []uint64{uint64(fi), bs, v})
 		}
 		hres := [][]int{{32}, {64}, {}, {64, 32}}
 		cases = append(cases, Case{ID: i, Store: m.CoqStore(), HRes: hres, Calls: calls, Pages: m.MemMin, Wasm: hex.EncodeToString(bin), Engines: map[string]EngObs{}})
